@@ -111,6 +111,79 @@ Proof.
   apply Rabs_le; lra.
 Qed.
 
+(* ---- completeness: a value within 0.05 dB of the formula is accepted (no false alarm from the bracket) ---- *)
+Lemma ln_le_inv x y : 0 < x -> 0 < y -> ln x <= ln y -> x <= y.
+Proof.
+  intros Hx Hy [Hlt | Heq].
+  - left. apply ln_lt_inv; assumption.
+  - right. apply ln_inv; assumption.
+Qed.
+
+Lemma lower_bound_inv bw k : (0 < bw)%Z -> IZR k <= 200 * log10 (IZR bw) -> (10 ^ k <= bw ^ 200)%Z.
+Proof.
+  intros Hbw Hle.
+  assert (Hb : (0 < bw ^ 200)%Z) by (apply Z.pow_pos_nonneg; lia).
+  destruct (Z_lt_le_dec k 0) as [Hneg | Hk].
+  - rewrite (Z.pow_neg_r 10 k) by exact Hneg. lia.
+  - assert (Hp : (0 < 10 ^ k)%Z) by (apply Z.pow_pos_nonneg; lia).
+    apply le_IZR. apply ln_le_inv; [apply IZR_lt; exact Hp | apply IZR_lt; exact Hb |].
+    rewrite (ln_IZR_Zpow 10 k) by lia. rewrite (ln_IZR_Zpow bw 200) by lia.
+    unfold log10 in Hle. pose proof ln10_pos as H10.
+    apply Rmult_le_compat_r with (r := ln 10) in Hle; [| lra].
+    replace (200 * (ln (IZR bw) / ln 10) * ln 10) with (200 * ln (IZR bw)) in Hle by (field; lra).
+    exact Hle.
+Qed.
+
+Lemma upper_bound_inv bw k : (0 < bw)%Z -> 200 * log10 (IZR bw) <= IZR k -> (bw ^ 200 <= 10 ^ k)%Z.
+Proof.
+  intros Hbw Hle.
+  assert (Hb : (0 < bw ^ 200)%Z) by (apply Z.pow_pos_nonneg; lia).
+  assert (Hk : (0 <= k)%Z).
+  { apply le_IZR. pose proof (log10_nonneg bw Hbw). lra. }
+  assert (Hp : (0 < 10 ^ k)%Z) by (apply Z.pow_pos_nonneg; lia).
+  apply le_IZR. apply ln_le_inv; [apply IZR_lt; exact Hb | apply IZR_lt; exact Hp |].
+  rewrite (ln_IZR_Zpow 10 k) by lia. rewrite (ln_IZR_Zpow bw 200) by lia.
+  unfold log10 in Hle. pose proof ln10_pos as H10.
+  apply Rmult_le_compat_r with (r := ln 10) in Hle; [| lra].
+  replace (200 * (ln (IZR bw) / ln 10) * ln 10) with (200 * ln (IZR bw)) in Hle by (field; lra).
+  exact Hle.
+Qed.
+
+Lemma Rabs_le_bounds x a : Rabs x <= a -> - a <= x <= a.
+Proof.
+  intros H. pose proof (Rle_abs x) as H1. pose proof (Rle_abs (- x)) as H2.
+  rewrite Rabs_Ropp in H2. lra.
+Qed.
+
+Theorem sens_bracket_complete bw nfsnr o :
+  (0 < bw)%Z -> Rabs (Q2R o - sens_real bw (Q2R nfsnr)) <= 1 / 20 ->
+  sens_bracket bw nfsnr o = true.
+Proof.
+  intros Hbw Habs. unfold sens_bracket.
+  set (y := (o + 174 - nfsnr)%Q).
+  set (m := Qfloor (20 * y)).
+  assert (Hy : Q2R y = Q2R o + 174 - Q2R nfsnr).
+  { unfold y. rewrite Q2R_minus, Q2R_plus.
+    replace (Q2R 174) with 174 by (unfold Q2R; simpl; field). reflexivity. }
+  assert (H20 : Q2R (20 * y) = 20 * Q2R y).
+  { rewrite Q2R_mult. replace (Q2R 20) with 20 by (unfold Q2R; simpl; field). reflexivity. }
+  assert (Hfl : IZR m <= 20 * Q2R y).
+  { rewrite <- H20, <- Q2R_inject_Z. apply Qle_Rle. apply Qfloor_le. }
+  assert (Hfu : 20 * Q2R y < IZR m + 1).
+  { rewrite <- H20. replace (IZR m + 1) with (IZR (m + 1)) by (rewrite plus_IZR; reflexivity).
+    rewrite <- Q2R_inject_Z. apply Qlt_Rlt. apply Qlt_floor. }
+  clearbody m y.
+  unfold sens_real in Habs. apply Rabs_le_bounds in Habs.
+  assert (HL : IZR (m - 1) <= 200 * log10 (IZR bw)).
+  { rewrite minus_IZR. set (L := log10 (IZR bw)) in *. clearbody L. lra. }
+  assert (HU : 200 * log10 (IZR bw) <= IZR (m + 2)).
+  { rewrite plus_IZR. set (L := log10 (IZR bw)) in *. clearbody L. lra. }
+  apply (lower_bound_inv bw (m - 1) Hbw) in HL.
+  apply (upper_bound_inv bw (m + 2) Hbw) in HU.
+  apply Z.ltb_lt in Hbw. apply Z.leb_le in HL. apply Z.leb_le in HU.
+  rewrite Hbw, HL, HU. reflexivity.
+Qed.
+
 (* the bound cannot be read off a looser test: the bracket refuses a value 0.2 dB off *)
 Example sens_bracket_accepts : sens_bracket 125000 (-14) (-1370309 # 10000) = true.
 Proof. vm_compute. reflexivity. Qed.
